@@ -179,6 +179,7 @@ def instrument(rec):
         pre = osnap(order)
         tv = self._turnover[order.order_book_id] if order.order_book_id in self._turnover else 0
         cash = float(account.cash)
+        n_calls0 = len(rec.match_calls)      # a TRADE handler that sends an order re-enters the matcher before this call returns
         captured = []
         bus = env.event_bus
         orig_pub = bus.publish_event
@@ -223,7 +224,7 @@ def instrument(rec):
                     pass
             rec.match_calls.append({"stamped": stamped, "pre": pre, "post": osnap(order), "turnover": tv, "turnover_after": self._turnover.get(order.order_book_id, 0), "cash": cash,
                                     "auction": bool(open_auction), "trades": captured, "raised": type(raised).__name__ if raised else None, "when": rec.now(),
-                                    "account": account.type})
+                                    "account": account.type, "had_inner": len(rec.match_calls) > n_calls0})
     DefaultBarMatcher.match = match_w
 
     # ---- signal mode: one record per SignalBroker._match() call
